@@ -157,7 +157,7 @@ def run(ctx):
     if ctx.quick:
         phases = [("first2", 2, "full"), ("all", 1, "full"), ("all", 2, "core"), ("first", 3, "core")]
     else:
-        phases = [("first", 3, "full"), ("all", 2, "full"), ("all", 3, "core"), ("first", 4, "core")]
+        phases = [("first", 3, "full"), ("all", 2, "full"), ("all", 3, "core")]
     stats = collections.Counter()
     allv = common.Violations(keep=10)
     distinct = set()
@@ -170,8 +170,15 @@ def run(ctx):
         for mi in metas:
             evs0 = events(set(), ctx.tier) if menu == "full" else core_events(set())
             for ev in evs0:
-                tasks.append((mi, [ev], depth - 1, ctx.tier, menu))
-        res = pool.pmap(_subtree, tasks, chunk=1)
+                if depth >= 3 and menu == "full":
+                    # smaller tasks: one per two-event prefix (the one-event prefix itself is checked once, here)
+                    env1 = {ev[2]} if ev[0] in ("decl", "arr") else set()
+                    tasks.append((mi, [ev], 0, ctx.tier, menu))
+                    for ev2 in events(env1, ctx.tier):
+                        tasks.append((mi, [ev, ev2], depth - 2, ctx.tier, menu))
+                else:
+                    tasks.append((mi, [ev], depth - 1, ctx.tier, menu))
+        res = pool.pmap(_subtree, tasks, chunk=1, timeout=7200)
         n0 = stats["evaluations"]
         for r in res:
             if r == "TIMEOUT":
